@@ -16,6 +16,8 @@ pub struct Cfg {
     /// out of 256: P(method unordered), P(method ordered); rest = unmentioned
     pub p_unordered: u16,
     pub p_ordered: u16,
+    /// optional per-method override of (p_unordered, p_ordered), indexed like `methods`
+    pub method_modes: Option<Vec<(u16, u16)>>,
     pub resps: Vec<Resp>,
     pub matchers: Vec<MatcherKind>,
     pub max_clauses: usize,
@@ -42,6 +44,7 @@ impl Cfg {
             methods: vec![0, 1, 2, 3, 4, 5, 6, 7],
             p_unordered: 150,
             p_ordered: 0,
+            method_modes: None,
             resps: vec![Resp::Returns, Resp::Answers, Resp::AnswersArc, Resp::ReturnsDefault],
             matchers: vec![MatcherKind::FuncDebug],
             max_clauses: 6,
@@ -182,11 +185,15 @@ pub fn legalise_pat(cfg: &Cfg, raw: &RawPat, id: u16, ordered: bool, in_stub: bo
 }
 
 /// Modes per candidate method: 0 = unmentioned, 1 = unordered, 2 = ordered.
-pub fn method_mode(cfg: &Cfg, sel: u8) -> u8 {
+pub fn method_mode(cfg: &Cfg, idx: usize, sel: u8) -> u8 {
     let s = sel as u16;
-    if s < cfg.p_unordered {
+    let (pu, po) = match &cfg.method_modes {
+        Some(v) => v[idx],
+        None => (cfg.p_unordered, cfg.p_ordered),
+    };
+    if s < pu {
         1
-    } else if s < cfg.p_unordered + cfg.p_ordered {
+    } else if s < pu + po {
         2
     } else {
         0
@@ -194,7 +201,7 @@ pub fn method_mode(cfg: &Cfg, sel: u8) -> u8 {
 }
 
 pub fn legalise(cfg: &Cfg, raw: &RawScenario) -> Scenario {
-    let modes: Vec<u8> = raw.modes.iter().map(|s| method_mode(cfg, *s)).collect();
+    let modes: Vec<u8> = raw.modes.iter().enumerate().map(|(i, s)| method_mode(cfg, i, *s)).collect();
     let mentioned: Vec<usize> = (0..cfg.methods.len()).filter(|i| modes[*i] != 0).collect();
     let mut clauses = vec![];
     let mut next_id: u16 = 0;
@@ -279,17 +286,20 @@ pub fn build_history(cfg: &Cfg, scn: &Scenario, raw: &[RawCall]) -> Vec<Call> {
             arg: r.arg,
             via: r.via % (scn.clones + 1),
         };
-        if (r.guide as u16) < cfg.guide {
+        let draw = r.guide as u16;
+        let mut steered = false;
+        if draw < cfg.guide {
             if let Some((m, pi)) = model.slots.get(model.ordered_next).copied() {
                 let mask = model.methods[&m].pats[pi].mask;
                 let accepted: Vec<u8> = (0..ARGS).filter(|a| (mask >> a) & 1 == 1).collect();
-                if !accepted.is_empty() {
+                if !accepted.is_empty() && !model.deviated {
                     call.method = m;
                     call.arg = accepted[r.arg as usize % accepted.len()];
+                    steered = true;
                 }
             }
         }
-        else if (r.guide as u16) < cfg.guide + cfg.prefer_match {
+        if !steered && draw < cfg.guide + cfg.prefer_match {
             let unordered: Vec<u8> = model
                 .methods
                 .iter()
